@@ -360,13 +360,15 @@ def full_cfg(cfg):
 
 def check(run):
     thorough = run.tier == "thorough"
-    n_objects = 1400 if thorough else 60
+    n_objects = 900 if thorough else 60
     run.coverage["rule"] = (
         "generated SDO/SRO/marking-definition objects (2.0 and 2.1; built by class constructor, by parse, or kept as plain "
         "dicts) with falsy values, repeated list elements, embedded objects, nested custom content and prefix-related "
         "property names; for each object every path of its value tree (capped at 60) plus near-miss selectors; each "
         "(object, selector) goes through validate, the six marking functions and methods, and construction/parse with "
-        "the selector in a granular marking. An (object, selector) evaluation is non-trivial when the selector is a "
+        "the selector in a granular marking; plus a deterministic per-class pass (every class template x version x "
+        "class/parse x with/without extensions) and a fifth of the objects again under TZ=JST-9 / PYTHONHASHSEED=7. "
+        "An (object, selector) evaluation is non-trivial when the selector is a "
         "real path of the object or a near miss derived from one (all but the four fixed junk selectors).")
     with common.Lock():
         res = common.build_props("Props/C08.v", extra_targets=("Model/MarkingsRun.vo",))
